@@ -211,7 +211,7 @@ mutual
       have hg2 : Good f2 := good_add_built hg1 htc
       have hR : RootAt f2 (A ++ [HTree.node p v (K ++ ts)]) tc [] := ⟨by simp [f2, f1], hg2.nodup⟩
       have htcn := treeOfContent_normal c
-      rw [← htc.erase, erase_value] at htcn
+      rw [← htc.erase, ffx_erase_value] at htcn
       -- the attachment
       have hattach : f2.attachFirst p (ts.head?.map HTree.handle) tc.handle =
           some { f2 with roots := A ++ [HTree.node p v (K ++ tc :: ts)] } := by
@@ -237,10 +237,10 @@ mutual
                 have he := hts.erase
                 simp only [eraseList, treeOfList, List.cons.injEq] at he
                 have hct : c.isText = true := by
-                  rw [← treeOfContent_isText, ← htc.erase, erase_value]; exact htt
+                  rw [← treeOfContent_isText, ← htc.erase, ffx_erase_value]; exact htt
                 have hn := hadj hcons
                 simp only [noAdjacentFText, Bool.and_eq_true, Bool.not_eq_true', Bool.and_eq_false_iff] at hn
-                rw [← erase_value, he.1, treeOfContent_isText]
+                rw [← ffx_erase_value, he.1, treeOfContent_isText]
                 rcases hn.1 with h1 | h1
                 · rw [hct] at h1; cases h1
                 · exact h1
